@@ -10,6 +10,7 @@ from . import terms as T
 
 VERIF = os.path.dirname(os.path.dirname(os.path.abspath(__file__)))
 KNOWN_FILE = os.path.join(VERIF, "KNOWN_FINDINGS.txt")
+OUT = os.environ.get("SA_OUT") or VERIF  # evidence directory root (SA_OUT only for triage runs)
 
 TRUSTED = [
     "CPython 3.12 ast parser",
@@ -128,9 +129,13 @@ class Ctx:
                     hit = k
                     break
             (kn if hit else new).append((f, hit))
-        os.makedirs(os.path.join(VERIF, "evidence", "replay"), exist_ok=True)
+        os.makedirs(os.path.join(OUT, "evidence", "replay"), exist_ok=True)
         lines = []
+        seen_k = set()
         for f, k in kn:
+            if f.key() in seen_k:
+                continue
+            seen_k.add(f.key())
             lines.append("KNOWN-FINDING: property=%s rule=%s site=%s construct=%s :: %s" % (f.pid, f.rule, f.site, f.construct, k["what"] or f.message))
         replay_paths = []
         seen = set()
@@ -140,7 +145,7 @@ class Ctx:
                 continue
             seen.add(f.key())
             n += 1
-            rp = os.path.join(VERIF, "evidence", "replay", "%s-%d.json" % (self.pid, n))
+            rp = os.path.join(OUT, "evidence", "replay", "%s-%d.json" % (self.pid, n))
             with open(rp, "w") as fh:
                 json.dump({**f.as_dict(), "replay_cmd": "/venv/bin/python -m sa.check %s" % self.pid,
                            "note": "static finding: re-running the check re-evaluates this obligation on the current tree"}, fh, indent=1)
@@ -184,6 +189,6 @@ class Ctx:
             "wall_s": round(time.time() - self.t0, 3),
             "violations": nviol,
         }
-        os.makedirs(os.path.join(VERIF, "evidence"), exist_ok=True)
-        with open(os.path.join(VERIF, "evidence", "%s.json" % self.pid), "w") as fh:
+        os.makedirs(os.path.join(OUT, "evidence"), exist_ok=True)
+        with open(os.path.join(OUT, "evidence", "%s.json" % self.pid), "w") as fh:
             json.dump(ev, fh, indent=1, default=str)
